@@ -339,6 +339,40 @@ func init() {
 					roundTrip(c, fmt.Sprintf("after hsms.Parse(%x)", pre), msg, rm)
 					c.Case(0, true, "after-damaged")
 				}})
+			// nesting at the decoder's documented limit: a tree of exactly that depth round-trips; the statement names no
+			// bound, so a deeper tree that encodes but is refused by the decoder is reported (it is a listed finding)
+			nestRT := []int{ref.NestingLimit - 1, ref.NestingLimit, ref.NestingLimit + 1}
+			sp = append(sp, h.Space{Name: "round-trip-at-the-nesting-limit", Count: uint64(len(nestRT)) * 2, ChunkHint: 1,
+				Describe: func(i uint64) interface{} {
+					return fmt.Sprintf("%d nested lists around %s", nestRT[i/2], []string{"<U1 7>", "an empty list next to <A \"x\">"}[i%2])
+				},
+				Run: func(c *h.Ctx, i uint64) {
+					depth := nestRT[i/2]
+					var it ast.ItemNode = ast.NewUintNode(1, 7)
+					if i%2 == 1 {
+						it = ast.NewListNode(ast.NewListNode(), ast.NewASCIINode("x"))
+						depth -= 2 // this item is two lists deep already
+					}
+					for j := 0; j < depth; j++ {
+						it = ast.NewListNode(it)
+					}
+					msg := ast.NewHSMSDataMessage("", 1, 1, 1, "H<->E", it, 9, []byte{1, 2, 3, 4})
+					b := msg.ToBytes()
+					d, ok := hsms.Parse(b)
+					c.Ops(3)
+					desc := fmt.Sprintf("S1F1 W message whose item is nested %d lists deep (%d bytes)", nestRT[i/2], len(b))
+					switch {
+					case len(b) == 0:
+						c.Fail("rt-no-bytes", desc, "complete message encodes to nothing")
+					case (!ok || d == nil) && nestRT[i/2] > ref.NestingLimit:
+						c.Fail("rt-decode-refused:nested-deeper-than-the-documented-limit", desc, "encodes, but the decoder refuses its own encoder's output")
+					case !ok || d == nil:
+						c.Fail("rt-decode-refused:nesting", desc, "refused within the documented nesting limit")
+					case !bytes.Equal(d.ToBytes(), b):
+						c.Fail("rt-reencode-differs:nesting", desc, "decoded message re-encodes differently")
+					}
+					c.Case(0, true, "nesting-limit")
+				}})
 			// size boundaries, all 14 formats, top-level and nested
 			type sz struct {
 				k      ref.Kind
